@@ -18,7 +18,7 @@ From Coq Require Import String ZArith Reals Lra List Permutation Bool.
 From Coq Require Import PrimFloat.
 Require Import PV.Base.Val PV.Base.Num PV.Base.NumR PV.Base.SqrtOps PV.Base.SqrtOpsR.
 Require Import PV.Gen.StatCounter PV.Gen.Covariance PV.Model.Stats.
-Require Import PV.Proofs.Stats PV.Proofs.StatsCov PV.Proofs.StatsGeneric PV.Proofs.StatsFloatSpec.
+Require Import PV.Proofs.Stats PV.Proofs.StatsCov PV.Proofs.StatsGeneric PV.Proofs.StatsOrder PV.Proofs.StatsFloatSpec.
 Import ListNotations.
 Open Scope R_scope.
 
@@ -115,6 +115,19 @@ Theorem C17_max_min_are_data : forall (N : NumOps) (ninf pinf : @F N) (t : mtree
   In (st_max (tree_stats ninf pinf t)) (ninf :: tdata t) /\ In (st_min (tree_stats ninf pinf t)) (pinf :: tdata t).
 Proof. exact @tree_max_min_in_data. Qed.
 
+(* ... and in every instance whose < is a strict weak order on the values involved ([ok]: all reals; all IEEE floats
+   other than NaN) nothing in the data is above the max or below the min -- for every merge tree.  The three order
+   premises are hypotheses about the instance (they hold for R: order_premises_hold_for_R below; for binary64 they
+   are the IEEE comparison laws, not derived here) *)
+Theorem C17_max_min_bound_data : forall (N : NumOps) (ok : @F N -> Prop),
+  (forall a, ok a -> fltb a a = false) ->
+  (forall a b c, ok a -> ok b -> ok c -> fltb a b = true -> fltb b c = true -> fltb a c = true) ->
+  (forall a b c, ok a -> ok b -> ok c -> fltb a b = false -> fltb b c = false -> fltb a c = false) ->
+  forall (ninf pinf : @F N) (t : mtree (@F N)), ok ninf -> ok pinf -> Forall ok (tdata t) ->
+  (forall x, In x (tdata t) -> fltb (st_max (tree_stats ninf pinf t)) x = false) /\
+  (forall x, In x (tdata t) -> fltb x (st_min (tree_stats ninf pinf t)) = false).
+Proof. exact @tree_max_min_bounds. Qed.
+
 (* "Summaries of an empty dataset report count 0 and NaN variance instead of failing": any number of empty
    partitions, in every instance; and what the float instance (= Python) shows *)
 Theorem C17_empty_stats : forall (N : NumOps) (ninf pinf : @F N) parts,
@@ -183,6 +196,11 @@ Example order_irrelevant_instance :
   let t' := MSelf (MLeaf [1]) in
   Permutation (tdata t) (tdata (MNode (MLeaf [1; 4; 9]) (MLeaf []))) /\ tdata t <> [] /\ tdata t' = [1; 1].
 Proof. cbn. repeat split; [| congruence]. apply (Permutation_app_comm [9] [1; 4]). Qed.
+Example order_premises_hold_for_R :
+  (forall a : @F ROps, True -> fltb a a = false) /\
+  (forall a b c : @F ROps, True -> True -> True -> fltb a b = true -> fltb b c = true -> fltb a c = true) /\
+  (forall a b c : @F ROps, True -> True -> True -> fltb a b = false -> fltb b c = false -> fltb a c = false).
+Proof. exact R_order_premises. Qed.
 (* ... and the invariant is not trivially true: a counter with a wrong mean does not represent the data *)
 Example rep_discriminates : ~ Rep 0 0 (mkSC 2 1 0 0 0 : @sc ROps) [1; 2].
 Proof. intros [_ H _ _ _]. cbn in H. lra. Qed.
